@@ -2,7 +2,7 @@
 import re
 
 import xobjects as xo
-from xobjects.context import sort_classes, sources_from_classes
+from xobjects.context import sort_classes, sources_from_classes, classes_from_kernels
 from xv.typegen import SC, _uid
 from xv.model import exc_kind
 
@@ -16,7 +16,8 @@ FLOORS = {"graphs": 800, "builds": 150, "with_fieldless": 150, "cyclic": 100, "o
           "guards_checked": 4000, "duplicate_roots": 100, "with_depends_on": 200, "kernels_built_and_called": 50,
           "with_hybrid_depends_on": 100, "late_edges": 100, "sorted_once_before_cycle": 20,
           "stale_same_named_class_listed_first": 60, "with_depends_on_on_array_or_union": 100, "anonymous_array_class_and_named_subclass": 40,
-          "kernels_returning_a_class_not_listed": 30}
+          "kernels_returning_a_class_not_listed": 30, "builds_from_kernel_arguments_only": 40,
+          "kernel_argument_classes_collected": 80}
 RULE = ("random dependency DAGs of 2-10 classes of every kind (structs with nested/array/Ref/UnionRef fields, field-less "
         "structs, hybrid classes, array classes, union references, Ref types, declared _depends_on edges on structs and on "
         "hybrid classes naming plain and hybrid classes), random root subsets, orders "
@@ -349,5 +350,32 @@ def run_case(w, rng):
                 w.count("kernels_built_and_called")
         except Exception as e:
             viol(f"build-{type(e).__name__}", f"{str(e)[-1200:]}")
+    # the set of classes is given by the kernels alone: several user kernels described without c_name, each naming one
+    # root class as argument type, nothing in extra_classes ("kernels are built for any set of classes")
+    if not seen and twin is None and rng.random() < 0.25:
+        kroots, kn = [], set()
+        for r in roots:
+            if r.kind in ("S", "A", "U", "E") and hasattr(r.cls, "_gen_c_api") and r.name not in kn:
+                kn.add(r.name)
+                kroots.append(r)
+        if kroots:
+            kern, srcs = {}, []
+            for j, r in enumerate(kroots):
+                fnm = f"xv_k{next(_uid)}_{r.name}"
+                srcs.append(f"/*gpukern*/ int64_t {fnm}({r.cls._c_type} o, int64_t x){{ return x + {j}; }}")
+                kern[fnm] = xo.Kernel(args=[xo.Arg(r.cls, name="o"), xo.Arg(xo.Int64, name="x")], ret=xo.Arg(xo.Int64))
+            try:
+                got = {c.__name__ for c in classes_from_kernels(kern)}
+                for r in kroots:
+                    w.count("kernel_argument_classes_collected")
+                    if r.name not in got:
+                        viol("kernel-argument-class-not-collected", f"{r.name} not in {sorted(got)}")
+                ctx().add_kernels(sources=srcs, kernels=kern, extra_classes=[], extra_compile_args=("-O0", "-w"), extra_link_args=())
+                w.count("builds_from_kernel_arguments_only")
+                for fnm in kern:
+                    if fnm not in ctx().kernels:
+                        viol("kernel-not-registered", fnm)
+            except Exception as e:
+                viol(f"kernel-only-build-{type(e).__name__}", f"{str(e)[-1200:]}")
     w.case([sorted(n.kind for n in nodes), sorted(len(n.deps) for n in nodes), sorted(r.kind for r in roots), dup],
            sample=info if rng.random() < 0.01 else None, nontrivial=len(want) >= 3)
